@@ -352,7 +352,7 @@ META = {
 
 MANIFEST_ENTRY = {
     'text': 'The real DataSet methods run on symbolic samples along solver-chosen operation sequences; value goals (range ends, revert) are arithmetic validity queries, structural goals compare '
-            'the symbolic rows as multisets.',
+            'the symbolic rows as multisets; derived sets (split pieces, label classes, removed samples) are scaled back independently of their parent.',
     'note': 'Trusted: z3, LIFT proxies/numpy facade, reference MinMaxScaler/shuffle stubs (cross-checked against sklearn).',
 }
 
